@@ -99,7 +99,11 @@ func events(in Input) EventsOut {
 				}
 			}
 		}
-		for i, op := range h {
+		var steps []fsops.Op
+		for _, op := range h {
+			steps = append(steps, fsops.Steps(op)...)
+		}
+		for i, op := range steps {
 			if err := fsops.Apply(fsops.RealFS{}, root, op, i); err != nil {
 				seq = append(seq, "INAPPLICABLE:"+op.String())
 				break
@@ -255,6 +259,10 @@ func replay(in Input) ReplayOut {
 		// probe phase (as in the explorer): a Spec written now into every configured directory that
 		// exists must become visible without Refresh: the directory is still (or again) watched
 		if conv && in.Probe {
+			// the explorer writes the probes at quiescence (watcher idle, every pending timer fired); here
+			// that is approximated by a pause: a watcher still busy with the history's own events would
+			// otherwise pick the probes up by accident when it finally rescans
+			time.Sleep(150 * time.Millisecond)
 			var want []string
 			for _, d := range in.Dirs {
 				if _, err := os.Stat(filepath.Join(root, d)); err == nil {
